@@ -46,6 +46,26 @@ def run_property(pid, tier, seed, only_key=None):
             if not hits:
                 print('REPLAY: construct no longer present (rule %s key %s)' % only_key)
             return 1 if any(o.status == 'bad' for o in hits) else 0
+        if tier == 'thorough':
+            # the checker's own kill matrix for this property's rules (DESIGN section 8): mutants of a scratch copy must be
+            # reported, behaviour-preserving variants must leave the verdict unchanged; VERIF_SEED only orders them
+            from selftest import run as selftest_run
+            res = selftest_run.run_for(pid, seed=seed, jobs=16)
+            muts = [r for r in res if r['kind'] == 'mutant']
+            ben = [r for r in res if r['kind'] == 'benign']
+            ledger.analysed['selftest'] = {
+                'mutants': len(muts), 'killed': sum(1 for r in muts if r.get('ok')),
+                'benign_variants': len(ben), 'silent': sum(1 for r in ben if r.get('ok')),
+                'detail': [{'id': r['id'], 'kind': r['kind'], 'ok': r.get('ok'), 'note': r.get('note'), 'file': r.get('file'),
+                            'report': (list(r.get('results', {}).values()) or [{}])[0].get('violations', [])[:1]} for r in res],
+            }
+            for r in res:
+                ledger.check(bool(r.get('ok')), 'SELFTEST.' + r['kind'], r['id'], r.get('file', ''),
+                             'self-test %s: %s' % (r['kind'], r.get('error') or r.get('results')), r.get('note', ''))
+            failed = [r['id'] for r in res if not r.get('ok')]
+            if failed:
+                raise core.AnalysisError('the checker failed its own self-test for %s (mutant not reported / benign variant '
+                                         'changed the verdict): %s' % (pid, ', '.join(failed)))
         return core.finish(ledger, tier, seed, t0, rules_run, meta['explanation'], props.TRUSTED_BASE,
                            meta['not_decided'])
     except core.AnalysisError as e:
